@@ -218,8 +218,11 @@ def make_record(spec, cls=None):
 
     feats = []
     for f in spec.get("features", []):
-        parts = [FeatureLocation(a, b, strand) for a, b, strand in f["parts"]]
-        loc = parts[0] if len(parts) == 1 else CompoundLocation(parts)
+        if f["parts"] is None:
+            loc = None       # a feature without a location (Biopython allows it; rotation must leave it alone)
+        else:
+            parts = [FeatureLocation(a, b, strand) for a, b, strand in f["parts"]]
+            loc = parts[0] if len(parts) == 1 else CompoundLocation(parts)
         feats.append(SeqFeature(loc, type=f["type"], qualifiers={k: list(v) for k, v in f.get("quals", {}).items()}))
     ann = dict(spec.get("annotations", {}))
     if "refs" in spec:
